@@ -446,6 +446,47 @@ def r02e(ctx):
     ctx.floor("R02e", n, 4, "node equality implementations")
 
 
+def r02j(ctx):
+    m = ctx.model
+    ctx.rule("R02j", "every character of a CSV cell reaches the tree: csv.reader is fed a file opened with newline='' (the csv module's "
+                     "documented requirement).  In the default universal-newlines mode Python rewrites \\r and \\r\\n to \\n before the "
+                     "reader sees them, also inside quoted cells, so two tables that differ only in such a character load equal and "
+                     "diff to cost 0")
+    n = 0
+    for fq, f in sorted(m.functions.items()):
+        for c in walk_no_nested(f.node):
+            if not (isinstance(c, ast.Call) and resolve_ext(m, f.module, c.func) == "csv.reader" and c.args):
+                continue
+            n += 1
+            src = c.args[0]
+            opened = None
+            for w in ancestors(c):
+                if isinstance(w, ast.With):
+                    for it in w.items:
+                        if it.optional_vars is not None and dotted(it.optional_vars) == dotted(src) and isinstance(it.context_expr, ast.Call) \
+                                and call_name(it.context_expr) == "open":
+                            opened = it.context_expr
+            if opened is None:
+                ctx.inconclusive("R02j", f.file, f.short, c, "csv.reader source", f"cannot find where `{norm(src, 30)}` is opened")
+                continue
+            nl = next((k.value for k in opened.keywords if k.arg == "newline"), None)
+            mode = opened.args[1] if len(opened.args) > 1 else next((k.value for k in opened.keywords if k.arg == "mode"), None)
+            if isinstance(nl, ast.Constant) and nl.value == "":
+                ctx.proved("R02j", f.file, f.short, opened, "csv.reader source", "opened with newline='' - the reader sees the bytes' own line ends")
+            else:
+                ctx.violation("R02j", f.file, f.short, opened, "csv.reader source",
+                              f"`{norm(opened, 50)}` feeds csv.reader without newline='': \\r and \\r\\n inside quoted cells are rewritten to "
+                              f"\\n before parsing, so `a,\"x\\r\\ny\"` and `a,\"x\\ny\"` load as the same table and the comparison reports no difference")
+    ctx.floor("R02j", n, 1, "csv.reader calls")
+
+
+def resolve_ext(m, module, e):
+    r = m.resolve_expr(module, e)
+    if r and r[0] and r[0][0] in ("ext", "module"):
+        return r[0][1]
+    return None
+
+
 def r02f(ctx):
     m = ctx.model
     ctx.rule("R02f", "removal, insertion and replacement always cost more than zero: cost = node size + penalty, so "
@@ -511,6 +552,7 @@ def run(ctx):
     r02f(ctx)
     r02g(ctx)
     r02h(ctx)
+    r02j(ctx)
     from . import c14
     from .. import cli
     f, specs, groups = cli.parse_cli(m)
